@@ -2,6 +2,7 @@
 from __future__ import annotations
 
 import ast
+import re
 from fractions import Fraction
 from typing import Dict, List, Optional, Tuple
 
@@ -494,9 +495,13 @@ def check_sample_becomes_row(prog: Program, rep, F: IntegrateFacts, rule: str) -
         new_rows = [x for x in items if isinstance(x, SymObj) and x.path.startswith('create_trajectory_row')]
         if not items or items[0] is not earlier:
             problems.append(f'the row already on the card is replaced by {ev.describe(items[0]) if items else "nothing"}'[:160])
-        elif len(new_rows) != 1 or len(items) != 2:
-            problems.append(f'the card holds {len(items)} row(s) after a sample was handed back with one row on it: the sample does not '
-                            f'become a row of its own on some path')
+        else:
+            # the row built from the sample (its time `dt` is among the arguments) comes right after the earlier row, once;
+            # a further row built from the state of the step (the closing row of an abnormal stop) may follow it
+            from_sample = [x for x in new_rows if re.search(r'\bdt\b', x.path)]
+            if len(from_sample) != 1 or len(items) < 2 or items[1] is not from_sample[0] or len(new_rows) != len(items) - 1:
+                problems.append(f'the card holds {len(items)} row(s), {len(from_sample)} of them built from the sample, after a sample was '
+                                f'handed back with one row on it: the sample does not become a row of its own on some path')
     if n_leaf == 0:
         raise AnalysisError('one iteration with a sample recorded: no non-raising outcome')
     if problems:
